@@ -89,6 +89,52 @@ PredictLeaf(x) == LET hit == {k \in LeaveIndex : k \in DecisionPath(x)}
                      ELSE CHOOSE k \in hit : \A q \in hit : k <= q
 
 -----------------------------------------------------------------------------
+(* tree_leave_neighbors: which leaves touch.  Requirement: two leaves are neighbours     *)
+(* iff their (non-empty) boxes share a facet - they touch along one feature and overlap  *)
+(* with positive length along every other one.  Mechanism (as coded): the thresholds of  *)
+(* every used feature cut the space into a grid of cells, each cell is routed through    *)
+(* the tree and two leaves are neighbours iff two cells next to each other along one     *)
+(* feature fall in them.  One representative per interval (prev, t] is t itself, and     *)
+(* max+1 stands for the interval above the last threshold (the code takes midpoints).    *)
+Inner == {q \in NodeIds : left[q + 1] # Leaf}
+UsedFeats == {feat[k + 1] : k \in Inner}
+ThOf(f) == {th[k + 1] : k \in {q \in Inner : feat[q + 1] = f}}
+BoxLo(k, f) == LET b == NodeRange(k) IN IF f \in DOMAIN b THEN b[f][1] ELSE NegInf
+BoxHi(k, f) == LET b == NodeRange(k) IN IF f \in DOMAIN b THEN b[f][2] ELSE PosInf
+NonEmptyBox(k, nf) == \A f \in 0 .. nf - 1 : BoxLo(k, f) < BoxHi(k, f)
+Overlap(a, b, f) == Max2(BoxLo(a, f), BoxLo(b, f)) < Min2(BoxHi(a, f), BoxHi(b, f))
+Touch(a, b, f) == BoxHi(a, f) = BoxLo(b, f) \/ BoxHi(b, f) = BoxLo(a, f)
+Adjacent(a, b, nf) == /\ NonEmptyBox(a, nf) /\ NonEmptyBox(b, nf)
+                      /\ \E f \in 0 .. nf - 1 : Touch(a, b, f) /\ \A g \in (0 .. nf - 1) \ {f} : Overlap(a, b, g)
+FacetNeighbors(nf) == {p \in TrueLeaves \X TrueLeaves : p[1] < p[2] /\ Adjacent(p[1], p[2], nf)}
+
+MaxOf(S) == CHOOSE m \in S : \A q \in S : q <= m
+Reps(f) == ThOf(f) \cup {MaxOf(ThOf(f)) + 1}
+RepsNoMargin(f) == ThOf(f)      \* deviation: the cells above the last threshold forgotten
+CellSet == {c \in [UsedFeats -> UNION {Reps(f) : f \in UsedFeats}] : \A f \in UsedFeats : c[f] \in Reps(f)}
+CellPoint(c, nf) == [f \in 0 .. nf - 1 |-> IF f \in UsedFeats THEN c[f] ELSE 0]
+NextRep(f, v) == LET bigger == {r \in Reps(f) : r > v}
+                 IN IF bigger = {} THEN v ELSE CHOOSE m \in bigger : \A q \in bigger : m <= q
+GridNeighbors(nf) ==
+   {p \in TrueLeaves \X TrueLeaves :
+       /\ p[1] < p[2]
+       /\ \E c \in CellSet, f \in UsedFeats :
+             LET c2 == [c EXCEPT ![f] = NextRep(f, c[f])]
+             IN {Route(0, CellPoint(c, nf)), Route(0, CellPoint(c2, nf))} = {p[1], p[2]}}
+NeighborsAreFacets == GridNeighbors(NFeat) = FacetNeighbors(NFeat)
+\* the same grid without the upper margin misses neighbours: NoMarginIsEnough must be VIOLATED (non-vacuity)
+GridNeighborsNoMargin(nf) ==
+   {p \in TrueLeaves \X TrueLeaves :
+       /\ p[1] < p[2]
+       /\ \E c \in {c \in [UsedFeats -> UNION {RepsNoMargin(f) : f \in UsedFeats}] : \A f \in UsedFeats : c[f] \in RepsNoMargin(f)},
+             f \in UsedFeats :
+             LET bigger == {r \in RepsNoMargin(f) : r > c[f]}
+                 c2 == [c EXCEPT ![f] = IF bigger = {} THEN c[f] ELSE CHOOSE m \in bigger : \A q \in bigger : m <= q]
+             IN {Route(0, CellPoint(c, nf)), Route(0, CellPoint(c2, nf))} = {p[1], p[2]}}
+NoMarginIsEnough == GridNeighborsNoMargin(NFeat) = FacetNeighbors(NFeat)
+NeighborsNeedTwoLeaves == Cardinality(TrueLeaves) = 1 => GridNeighbors(NFeat) = {}
+
+-----------------------------------------------------------------------------
 InBox(x, box) == \A f \in DOMAIN box : /\ (box[f][1] = NegInf \/ box[f][1] < x[f])
                                        /\ (box[f][2] = PosInf \/ x[f] <= box[f][2])
 LeavesExact   == LeaveIndex = TrueLeaves
